@@ -7,10 +7,11 @@ import (
 	"context"
 	"fmt"
 	"math/rand"
+	"strings"
 
 	"github.com/dolthub/go-mysql-server/sql"
 
-	"verif/harness/core"
+	"verif/harness/g3lib"
 )
 
 // rset is a generated range set with its decoded form.
@@ -79,7 +80,7 @@ type collCheck struct {
 
 // checkCollection compares an output list of ranges with the wanted key-tuple set: exact union,
 // pairwise disjoint, sorted. Returns the decoded output.
-func checkCollection(r *core.Run, cc collCheck, doms []*dom, in []sql.MySQLRange, want *pset, out []sql.MySQLRange, extra map[string]any) []box {
+func checkCollection(r *g3lib.Rec, cc collCheck, doms []*dom, in []sql.MySQLRange, want *pset, out []sql.MySQLRange, extra map[string]any) []box {
 	n := len(doms)
 	r.Eval(1)
 	wit := func() map[string]any {
@@ -157,7 +158,7 @@ func countOverlapPairs(n int, boxes []box) int {
 }
 
 // checkROL runs RemoveOverlappingRanges on a set.
-func checkROL(r *core.Run, ctx context.Context, s *rset, sample bool) {
+func checkROL(r *g3lib.Rec, ctx context.Context, s *rset, sample bool) {
 	n := s.n()
 	want := psetOf(n, s.boxes...)
 	in := append([]sql.MySQLRange(nil), s.ranges...) // the function appends to its argument slice
@@ -204,7 +205,7 @@ func boxRel(n int, a, b box) string {
 }
 
 // checkPair checks every two-operand operation of MySQLRange on (a, b).
-func checkPair(r *core.Run, ctx context.Context, doms []*dom, a, b sql.MySQLRange) {
+func checkPair(r *g3lib.Rec, ctx context.Context, doms []*dom, a, b sql.MySQLRange) {
 	n := len(doms)
 	ba, bb := decodeRange(doms, a), decodeRange(doms, b)
 	pa, pb := psetOf(n, ba), psetOf(n, bb)
@@ -309,7 +310,7 @@ func checkPair(r *core.Run, ctx context.Context, doms []*dom, a, b sql.MySQLRang
 }
 
 // checkCollIntersect: (A1 ∪ … ) ∩ (B1 ∪ …) through MySQLRangeCollection.Intersect.
-func checkCollIntersect(r *core.Run, ctx context.Context, s *rset) {
+func checkCollIntersect(r *g3lib.Rec, ctx context.Context, s *rset) {
 	if len(s.ranges) < 2 {
 		return
 	}
@@ -321,6 +322,23 @@ func checkCollIntersect(r *core.Run, ctx context.Context, s *rset) {
 	out, err := A.Intersect(ctx, B)
 	if err != nil {
 		r.Eval(1)
+		if strings.HasPrefix(err.Error(), "overlapping ranges") {
+			// Collection.Intersect = RemoveOverlappingRanges over the pairwise intersections: classify the
+			// error on exactly that intermediate input
+			mid := &rset{doms: s.doms}
+			for _, ra := range A {
+				for _, rb := range B {
+					if x, e2 := ra.Intersect(ctx, rb); e2 == nil && len(x) > 0 {
+						mid.ranges = append(mid.ranges, x)
+						mid.boxes = append(mid.boxes, decodeRange(s.doms, x))
+					}
+				}
+			}
+			if _, e3 := sql.RemoveOverlappingRanges(ctx, append([]sql.MySQLRange(nil), mid.ranges...)...); e3 != nil {
+				reportROLError(r, ctx, mid, e3)
+				return
+			}
+		}
 		r.Violation(fmt.Sprintf("collintersect:error:n=%d", n), map[string]any{"types": domNames(s.doms), "a": rangesString(A), "b": rangesString(B), "err": err.Error()})
 		return
 	}
@@ -329,7 +347,7 @@ func checkCollIntersect(r *core.Run, ctx context.Context, s *rset) {
 }
 
 // checkSort: SortRanges returns a sorted permutation.
-func checkSort(r *core.Run, ctx context.Context, s *rset) {
+func checkSort(r *g3lib.Rec, ctx context.Context, s *rset) {
 	out, err := sql.SortRanges(ctx, s.ranges...)
 	r.Eval(1)
 	if err != nil {
@@ -362,7 +380,7 @@ func checkSort(r *core.Run, ctx context.Context, s *rset) {
 }
 
 // checkIntersectRanges: IntersectRanges(r1, r2, …) is the pointwise AND of its arguments (nil = empty).
-func checkIntersectRanges(r *core.Run, ctx context.Context, s *rset) (mode string, wit map[string]any) {
+func checkIntersectRanges(r *g3lib.Rec, ctx context.Context, s *rset) (mode string, wit map[string]any) {
 	n := s.n()
 	want := psetOf(n, s.boxes[0])
 	for _, b := range s.boxes[1:] {
